@@ -36,6 +36,10 @@ type pairModel struct {
 	enforcerDlv  *ssa.Function
 	enforcerLoop *ssa.Function
 	phiBusy      map[*ssa.Phi]bool
+	// assumed: parameters of a helper under analysis that stand for removed messages (or a
+	// slice of them) because every call passes such a value
+	assumed    map[ssa.Value]bool
+	helperBusy map[*ssa.Function]bool
 	adds         []removeSite
 	removes      []removeSite
 	loads        []removeSite
@@ -226,6 +230,9 @@ func (m *pairModel) isMsgContainer(v ssa.Value, depth int) bool {
 	if depth > 14 {
 		return false
 	}
+	if m.assumed[v] {
+		return true
+	}
 	if f := eng.LoadedField(v); eng.SameField(f, m.memMsgs) || eng.SameField(f, m.fileMsgs) {
 		return true
 	}
@@ -269,6 +276,9 @@ func (m *pairModel) isMsgContainer(v ssa.Value, depth int) bool {
 func (m *pairModel) isRemovedSlice(v ssa.Value, depth int) bool {
 	if depth > 14 {
 		return false
+	}
+	if m.assumed[v] {
+		return true
 	}
 	switch x := v.(type) {
 	case *ssa.Const:
@@ -388,6 +398,9 @@ func (m *pairModel) isRemovedSliceOrSelfCell(v ssa.Value, cell *ssa.Alloc, depth
 func (m *pairModel) removedOrigin(v ssa.Value, depth int) bool {
 	if depth > 14 {
 		return false
+	}
+	if m.assumed[v] {
+		return true
 	}
 	switch x := v.(type) {
 	case *ssa.Const:
@@ -648,13 +661,16 @@ func (m *pairModel) checkIn(T *ssa.Function, ri ssa.Instruction, effect string, 
 			return pairVerdict{true, p.Pos(T.Pos()), "performed by the enforcer goroutine itself (accounting decided by C08/ENFORCER/shape)"}
 		}
 	}
+	edgeOK := func(b *ssa.BasicBlock, k int) bool { return !m.nothingRemovedEdge(b, k, allowOff) }
+	if effect != "enforcer-deliver" {
+		pred = m.orViaHelper(pred, allowOff)
+	}
 	var effects []ssa.Instruction
 	eng.EachInstr(T, func(in ssa.Instruction) {
 		if pred(in) {
 			effects = append(effects, in)
 		}
 	})
-	edgeOK := func(b *ssa.BasicBlock, k int) bool { return !m.nothingRemovedEdge(b, k, allowOff) }
 	if len(effects) > 0 {
 		// forward: removal → return must pass an effect (except via nothing-removed edges)
 		fwd := (&eng.Search{Target: eng.IsReturn, Avoid: pred, Edge: edgeOK}).After(ri)
@@ -729,4 +745,76 @@ func isStoreAPI(fn *ssa.Function) bool {
 
 func siteName(s removeSite) string {
 	return fmt.Sprintf("%s:%s:%s", s.store, shortFn(eng.Outer(s.fn)), s.kind)
+}
+
+// orViaHelper extends an effect predicate to calls of a helper of the same package that
+// receives the removed message (or a slice of removed messages) and performs the effect for
+// its parameter on every path through it (reportEvicted(evicted): for each, account + emit).
+func (m *pairModel) orViaHelper(pred eng.Pred, allowOff bool) eng.Pred {
+	var ext eng.Pred
+	ext = func(in ssa.Instruction) bool {
+		if pred(in) {
+			return true
+		}
+		call, ok := in.(*ssa.Call)
+		if !ok {
+			return false
+		}
+		g := eng.StaticCallee(call.Common())
+		if g == nil || !eng.InModule(g) || len(g.Blocks) == 0 || g.Parent() != nil || eng.FuncPkgPath(g) != eng.FuncPkgPath(in.Parent()) {
+			return false
+		}
+		if g == m.enforcerRm || g == m.enforcerDlv || g == m.enforcerLoop || m.helperBusy[g] {
+			return false
+		}
+		var prms []ssa.Value
+		for i, a := range call.Call.Args {
+			if i >= len(g.Params) || eng.IsNilConst(a) {
+				continue
+			}
+			switch a.Type().Underlying().(type) {
+			case *types.Slice, *types.Map:
+				if m.isRemovedSlice(a, 0) {
+					prms = append(prms, g.Params[i])
+				}
+			case *types.Pointer, *types.Interface:
+				if m.removedOrigin(a, 0) {
+					prms = append(prms, g.Params[i])
+				}
+			}
+		}
+		if len(prms) == 0 {
+			return false
+		}
+		if m.assumed == nil {
+			m.assumed = map[ssa.Value]bool{}
+			m.helperBusy = map[*ssa.Function]bool{}
+		}
+		var added []ssa.Value
+		for _, v := range prms {
+			if !m.assumed[v] {
+				m.assumed[v] = true
+				added = append(added, v)
+			}
+		}
+		m.helperBusy[g] = true
+		defer func() {
+			delete(m.helperBusy, g)
+			for _, v := range added {
+				delete(m.assumed, v)
+			}
+		}()
+		has := false
+		eng.EachInstr(g, func(gi ssa.Instruction) {
+			if ext(gi) {
+				has = true
+			}
+		})
+		if !has {
+			return false
+		}
+		edgeOK := func(b *ssa.BasicBlock, k int) bool { return !m.nothingRemovedEdge(b, k, allowOff) }
+		return (&eng.Search{Target: eng.IsReturn, Avoid: ext, Edge: edgeOK}).FromEntry(g) == nil
+	}
+	return ext
 }
